@@ -5,7 +5,7 @@ import numpy as np
 
 from symtt.core import scenario
 from symtt import dense as D
-from .common import all_shapes, pick, is_edge, mk_cores, meta_ok
+from .common import free_policy, all_shapes, pick, is_edge, mk_cores, meta_ok
 
 META = {
     'explanation': 'TT.svd(index) and TT.pinv(index) on vector-type trains: (II) u . diag(s) . v contracts to the original tensor for '
@@ -103,8 +103,7 @@ def svd(ctx, shape, index, ortho_l, ortho_r, cplx):
         return
     # ---- structure under fresh SVD outputs
     from symtt import state, lapack
-    state.reset()
-    lapack.set_policy(lapack.FreePolicy(assume_sorted_spectrum=False))
+    free_policy(ctx)
     cores = mk_cores(ctx, 'a', shape, cplx)
     t = TT(mk_cores(ctx, 'a', shape, cplx))
     u, s, v = t.svd(index, ortho_l=ortho_l, ortho_r=ortho_r)
@@ -145,8 +144,7 @@ def svd(ctx, shape, index, ortho_l, ortho_r, cplx):
     for i in range(index, d):
         ctx.eq('svd: v core %d == %s' % (i - index, 'Vh_mid . core' if i == index else 'reshape(Vh) of its SVD'), v.cores[i - index], cur[i])
     # overwrite variant: works on self
-    state.reset()
-    lapack.set_policy(lapack.FreePolicy(assume_sorted_spectrum=False))
+    free_policy(ctx)
     t2 = TT(mk_cores(ctx, 'a', shape, cplx))
     u2, s2, v2 = t2.svd(index, ortho_l=ortho_l, ortho_r=ortho_r, overwrite=True)
     meta_ok(ctx, 'svd(overwrite=True): self', t2)
@@ -173,13 +171,11 @@ def pinv(ctx, shape, index, ortho_l, ortho_r, cplx):
                        np.linalg.pinv(M).T.conj(), tol=1e-6)
         return
     from symtt import state, lapack
-    state.reset()
-    lapack.set_policy(lapack.FreePolicy(assume_sorted_spectrum=False))
+    free_policy(ctx)
     t = TT(mk_cores(ctx, 'a', shape, cplx))
     u, s, v = t.svd(index, ortho_l=ortho_l, ortho_r=ortho_r)
     n_svd = len(state.S.stub_log)
-    state.reset()
-    lapack.set_policy(lapack.FreePolicy(assume_sorted_spectrum=False))       # same call sequence => same factor symbols
+    free_policy(ctx)       # same call sequence => same factor symbols
     t2 = TT(mk_cores(ctx, 'a', shape, cplx))
     p = t2.pinv(index, ortho_l=ortho_l, ortho_r=ortho_r)
     ctx.check('pinv: same SVD call sequence as svd()', len(state.S.stub_log) == n_svd)
